@@ -93,7 +93,7 @@ def parse_ident(text: str):
 class Lookup:
     __slots__ = ("name", "key", "task", "reads0", "read", "served", "error", "live",
                  "b_dec", "e_dec", "b_w", "e_w", "ctx", "kwargs", "seq", "ref_error",
-                 "live_end")
+                 "live_end", "served_mtime")
 
     def brief(self):
         return {"name": self.name, "key": list(self.key), "task": self.task,
@@ -181,6 +181,7 @@ class World:
         self.wlog: list[tuple[int, str, int | None, float | None]] = []  # (wseq, loc, ver, mtime)
         self.fault_w: list[tuple[int, str]] = []  # (wseq, kind) delete/unavail events
         self.cur_loop = None
+        self.pending: Violation | None = None
         self.trace: list = []
 
     def count(self, k: str, n: int = 1) -> None:
@@ -274,6 +275,7 @@ class World:
         lk.e_dec = lk.e_w = None
         lk.ref_error = None
         lk.live_end = None
+        lk.served_mtime = None
         self.lookups.append(lk)
         return lk
 
@@ -299,11 +301,18 @@ class World:
         else:
             ident = parse_ident(str(t))
             lk.served = (ident[1], ident[2]) if ident else (-1, "?")
+            lk.served_mtime = self.store.mtime(lk.served[1]) if ident else None
+            if ident and ident[0] != lk.name and self.pending is None:
+                # raised at the next judgement point, not through the library's frames
+                self.pending = Violation("wrong_template", lookup=lk.brief(), served_name=ident[0])
             if self.cur_loop is not None:
                 lk.live_end = self.live(lk.name, lk.ctx, lk.kwargs)
         lk.ctx = None
 
     def take(self) -> list[Lookup]:
+        if self.pending is not None:
+            p, self.pending = self.pending, None
+            raise p
         l, self.lookups = self.lookups, []
         self.trace.append([lk.brief() for lk in l])
         return l
@@ -544,8 +553,9 @@ def do_render(w: World, op: dict, t, twin):
         return
     seen: dict[str, tuple] = {}
     for lk in lookups:
-        if lk.served is not None:
-            if lk.name in seen and seen[lk.name] != lk.served:
+        res = lk.served if lk.served is not None else ("err", lk.error)
+        if res is not None:
+            if lk.name in seen and seen[lk.name] != res:
                 # a permitted-stale entry was evicted and re-read in the middle of this render
                 # (recursive partials, small capacity): one name, two admissible versions.
                 # Every lookup has been judged; the counterpart can serve only one version per
@@ -554,7 +564,7 @@ def do_render(w: World, op: dict, t, twin):
                 if out[0] == "ok":
                     check_tokens(out[1], d, op.get("g_bound"), w.cfg.get("env_globals") or {})
                 return
-            seen[lk.name] = lk.served
+            seen[lk.name] = res
     with w.with_clone(stale):
         exp = canon_call(twin.render, **w.data_for(d, "ref"))
     w.trace.append([out, exp])
@@ -712,7 +722,7 @@ def do_par(w: World, op: dict):
                                for (v2, l2) in live_set)
                     if not same:
                         if (all(l2 != loc for (_, l2) in live_set) and live_set
-                                and w.store.mtime(loc) == mt_served):
+                                and lk.served_mtime == mt_served):
                             # the entry's own file is unchanged but the name now resolves to an
                             # earlier search path / loader: the recorded known finding
                             raise Violation("stale_served", sub="shadowed", lookup=lk.brief(),
@@ -758,6 +768,28 @@ def do_par(w: World, op: dict):
         w.count("conc_diff_ok")
     w.check_capacity()
     w.model_known = False
+    # what the batch left in the cache must still be admissible for each key: probe every
+    # name once (safety rule: live now, or a version that did exist at that location and
+    # whose staleness the property permits), then flush and re-synchronise the model
+    for name in w.cfg.get("names") or ():
+        for kw in ([{}] + ([{w.nskey: t} for t in TENANTS] if w.nskey else [])):
+            out = canon_call(w.env.get_template, name, **kw)
+            for lk in w.take():
+                if lk.served is None or lk.live[0] != "ok":
+                    continue
+                if lk.served == (lk.live[1], lk.live[2]):
+                    continue
+                ver, loc = lk.served
+                known_version = (loc, ver) in w.content_of
+                structural = (not w.auto_reload) or (not w.store.has_freshness(loc)) or (
+                    lk.live[2] == loc and w.content_of.get((loc, ver), (None, None))[1] == lk.live[3])
+                if known_version and lk.live[2] != loc and w.auto_reload and w.store.has_freshness(loc) \
+                        and w.store.mtime(loc) == w.content_of[(loc, ver)][1]:
+                    raise Violation("stale_served", sub="shadowed", lookup=lk.brief(), post_batch=True)
+                if not (known_version and structural):
+                    raise Violation("post_batch_wrong_content", lookup=lk.brief())
+            w.check_capacity()
+    w.count("post_batch_probes")
     do_flush(w)
 
 
@@ -919,6 +951,7 @@ def gen_plan(seed: int, tier: str) -> dict:
         "policy": rng.choice(simsched.POLICIES),
     }
     names = list(NAME_POOL[: rng.choice([2, 3, 3, 4])])
+    cfg["names"] = names
     if store == "fsx":
         names = [n for n in names]
     n_locs = {"dict": 1, "dictp": 1, "dd": 2, "fs": 1, "fs2": 2, "fsx": 1, "fs+d": 2}.get(store, 3)
